@@ -21,6 +21,9 @@ pub struct Piece {
     /// fault: after this piece the accumulator crashes and is restored from its serde form
     #[serde(default, skip_serializing_if = "is_false")]
     pub restore: bool,
+    /// after this piece the accumulator is replaced by a clone of itself (histories with clone)
+    #[serde(default, skip_serializing_if = "is_false")]
+    pub reclone: bool,
 }
 fn is_false(b: &bool) -> bool {
     !*b
@@ -63,7 +66,7 @@ pub struct TreeTrace {
 impl TreeTrace {
     pub fn single_leaf(n: usize) -> TreeTrace {
         TreeTrace {
-            nodes: vec![Node::Leaf { pieces: vec![Piece { path: Path::AddLoop, len: n, restore: false }] }],
+            nodes: vec![Node::Leaf { pieces: vec![Piece { path: Path::AddLoop, len: n, restore: false, reclone: false }] }],
             root: 0,
             order: vec![],
         }
@@ -225,6 +228,8 @@ pub struct GenCfg {
     pub swap_rate: f64,
     /// probability of a crash/restore fault after a piece / a join
     pub restore_rate: f64,
+    /// probability that the accumulator is replaced by its clone after a piece
+    pub reclone_rate: f64,
 }
 
 #[derive(Clone, Copy, Debug, PartialEq, Eq)]
@@ -459,7 +464,8 @@ fn gen_pieces(rng: &mut Rng, len: usize, cfg: &GenCfg, first: bool, st: &mut Gen
         if restore {
             st.restores += 1;
         }
-        out.push(Piece { path, len: l, restore });
+        let reclone = cfg.reclone_rate > 0. && rng.chance(cfg.reclone_rate);
+        out.push(Piece { path, len: l, restore, reclone });
     }
     out
 }
@@ -862,6 +868,11 @@ pub fn run_tree<E: Est, H: Hooks<E>>(
                     if pc.restore && cfg.apply_restores {
                         acc = restore(id, acc, hooks)?;
                     }
+                    if pc.reclone {
+                        let c = acc.clone();
+                        drop(acc);
+                        acc = c;
+                    }
                 }
                 if np >= pieces.len() {
                     hooks.leaf_done(id, layout[id], &acc)?;
@@ -923,6 +934,11 @@ pub fn run_tree<E: Est, H: Hooks<E>>(
                 acc.ingest(pc.path, &data[pos..pos + pc.len], false);
                 if pc.restore && cfg.apply_restores {
                     acc = restore(id, acc, hooks)?;
+                }
+                if pc.reclone {
+                    let c = acc.clone();
+                    drop(acc);
+                    acc = c;
                 }
                 if nt + 1 >= tail.len() {
                     hooks.node_done(id, layout[id], &acc)?;
